@@ -33,5 +33,12 @@ CHECKS = {
                  "identifier = received identifier (def-use), delivery argument order as documented, PUBACK/PUBREC/PUBCOMP emitted only in "
                  "these network contexts, receive window touched only by PUBLISH (insert) and PUBREL (remove).",
          "note": BASE_NOTE, "technique": "all-paths event counting per branch + who-may-emit table + def-use identity"},
+ "C07": {"text": "Path rules on the subscribe/unsubscribe flows of the subscriber-capable classes: normalised topic shapes reach encode() "
+                 "unmodified; each accepting path allocates the identifier, registers once under it, arms one timer, writes the stored bytes "
+                 "once; SUBACK/UNSUBACK handlers look up by the received identifier (effect-free miss), fire once with the granted list / "
+                 "identifier and remove the entry; the window rejection is an ordering comparison that the accepting path entails "
+                 "(len(window) < current window) and whose rejecting path has no effect; lifecycle table: a window a non-clean loss keeps "
+                 "must be re-sent by the resume path and drained by the clean-start purge.",
+         "note": BASE_NOTE, "technique": "path-sensitive event pairing + guard entailment + lifecycle fact table (loss/resume/purge loops per registry)"},
 }
 NOT_APPLICABLE = {}
